@@ -58,6 +58,10 @@ func recvName(fd *ast.FuncDecl) string {
 }
 
 func main() {
+	if len(os.Args) >= 2 && os.Args[1] == "translate" {
+		translateMain(os.Args[2:]) // translate.go: Go source → Lean definitions
+		return
+	}
 	if len(os.Args) < 3 {
 		fmt.Fprintln(os.Stderr, "usage: verifgen <repo root> <relative file>...")
 		os.Exit(2)
